@@ -104,8 +104,12 @@ def search(chk, broken):
             # the dense trace samples every 2 ft only: a double crossing inside 2 ft is not resolved; require presence/absence to agree
             if (mtrue == 0) != (len(machs) == 0):
                 chk.failures.append(Failure('mach-rows', f'{len(machs)} MACH rows but {mtrue} sonic crossings on the dense trace', desc))
+        # a MACH row is the state just below Mach 1 or - when the same step also produced a range row - that interpolated row, which may
+        # lie just BEFORE the crossing: within one step's change of the Mach number either way (slope taken from the dense trace)
+        near = [(a, b) for a, b in zip(dense, dense[1:]) if 0.9 < a.mach < 1.1 and (b.distance >> U.Foot) > (a.distance >> U.Foot)]
+        dmdx = max([abs(b.mach - a.mach) / ((b.distance >> U.Foot) - (a.distance >> U.Foot)) for a, b in near] + [0.002])
         for r in machs:
-            if not (0.98 <= r.mach <= 1.0 + 1e-9):
+            if not (1.0 - max(0.02, 1.5 * max_step * dmdx) <= r.mach <= 1.0 + 1.5 * max_step * dmdx + 1e-9):
                 chk.failures.append(Failure('mach-row-value', f'MACH row has Mach {r.mach}', desc))
         # HitResult.zeros()
         hit = pbc.HitResult(shot, rows, True)
